@@ -400,20 +400,96 @@ def new_resource(ci, directory, name="d.json"):
     raise HarnessError(ci.backend)
 
 
-def reset_class_state():
-    """Forget per-class buffer/lock state between cases (each case uses fresh files anyway)."""
+_SCALARS = (int, float, str, bool, type(None), tuple, frozenset)
+_PRISTINE = {}
+
+
+def _state_classes():
+    """The buffered classes and every class of the library's buffers package in their MROs."""
+    out = []
     for ci in BUFFERED:
-        c = ci.cls
-        c._buffer.clear()
-        c._buffered_collections.clear()
-        # reset the counter WHERE the library keeps it (never create a per-class one ourselves)
-        for k in c.__mro__:
-            if "_CURRENT_BUFFER_SIZE" in k.__dict__:
-                k._CURRENT_BUFFER_SIZE = 0
-                break
-        if "_BUFFER_CAPACITY" in c.__dict__:
-            del c._BUFFER_CAPACITY
-        ctx = c._buffer_context
-        ctx._count = 0
-        ctx._buffer_capacity = None
-        del ctx._original_buffer_capacitys[:]
+        for k in ci.cls.__mro__:
+            mod = getattr(k, "__module__", "")
+            if k is ci.cls or mod.startswith("synced_collections.buffers"):
+                if k not in out:
+                    out.append(k)
+    return out
+
+
+def _is_state_object(v):
+    import types
+    return (type(v).__module__.startswith("synced_collections") and not isinstance(v, type)
+            and not isinstance(v, (types.FunctionType, classmethod, staticmethod, property))
+            and hasattr(v, "__dict__"))
+
+
+def _capture_pristine():
+    """Snapshot, right after import, the class-level state of the buffering machinery - by VALUE
+    KIND, not by attribute name, so that the harness survives renamings of private attributes."""
+    for k in _state_classes():
+        entry = {}
+        for name, v in list(vars(k).items()):
+            if name.startswith("__"):
+                continue
+            if isinstance(v, (dict, list, set)):
+                entry[name] = ("c", copy.copy(v))
+            elif isinstance(v, _SCALARS):
+                entry[name] = ("s", v)
+            elif _is_state_object(v):
+                entry[name] = ("o", {n: copy.copy(x) for n, x in vars(v).items()
+                                     if isinstance(x, (dict, list, set) + _SCALARS)})
+        _PRISTINE[k] = entry
+
+
+def _restore(container, pristine):
+    if isinstance(container, dict):
+        container.clear()
+        container.update(pristine)
+    elif isinstance(container, list):
+        container[:] = pristine
+    elif isinstance(container, set):
+        container.clear()
+        container.update(pristine)
+
+
+def reset_class_state():
+    """Forget per-class buffer state between cases (each case uses fresh files anyway): every
+    class-level container / scalar / context object of the buffering machinery is put back to what it
+    was right after import; attributes that appeared since (e.g. a per-class capacity) are removed."""
+    if not _PRISTINE:
+        _capture_pristine()
+    for k, entry in _PRISTINE.items():
+        for name, v in list(vars(k).items()):
+            if name.startswith("__"):
+                continue
+            if name not in entry:
+                if isinstance(v, (dict, list, set) + _SCALARS):
+                    try:
+                        delattr(k, name)
+                    except (AttributeError, TypeError):
+                        pass
+                continue
+            kind, val = entry[name]
+            if kind == "c" and isinstance(v, (dict, list, set)):
+                _restore(v, val)
+            elif kind == "s":
+                if v is not val and v != val or type(v) is not type(val):
+                    setattr(k, name, val)
+            elif kind == "o" and hasattr(v, "__dict__"):
+                for n, x in list(vars(v).items()):
+                    if n in val:
+                        if isinstance(x, (dict, list, set)) and isinstance(val[n], type(x)):
+                            _restore(x, val[n])
+                        elif isinstance(val[n], _SCALARS):
+                            setattr(v, n, val[n])
+                    elif isinstance(x, (dict, list, set) + _SCALARS):
+                        try:
+                            delattr(v, n)
+                        except (AttributeError, TypeError):
+                            pass
+        for name, (kind, val) in entry.items():
+            if name not in vars(k) and kind == "s":
+                setattr(k, name, val)
+
+
+_capture_pristine()
